@@ -5,6 +5,7 @@ EXPLANATION = (
     "(Db::snapshot); otherwise two concurrent auto-commit statements can both read the pre-state and the second overwrites the first. "
     "A Db opened inside the same function is an unshared handle (named exception). Statement-level serialisability is not decided."
     " C09.3: every engine-state lock taken by a function that acquires the writer mutex (compact, checkpoint_on_close, begin_write) is taken while the mutex is held, so a writer's read-modify-write cannot interleave with another writer."
+    " C09.4: WriteTxn::commit keeps the writer guard until its last log write and publication."
 )
 
 SNAPSHOT = ("nervusdb::Db::snapshot", "nervusdb_storage::engine::GraphEngine::begin_read")
